@@ -20,7 +20,7 @@ RULE = ("lattice cell = kind x page version x has_nulls; inside: value selection
         "(verdict in both directions, returned bounds, and with a filter on d that drops the middle row group); the "
         "[0,3] stats=True files are re-footered as a writer of the current format would fill Statistics "
         "(min_value/max_value only; quick for asc, thorough always: both pairs, mixed per row group) and the views "
-        "compared again; history cell = kind x has_nulls (thorough: x page version): on one handle, simple and hive, "
+        "compared again, and after every filtered sorted_partitioned_columns question the handle's unfiltered answers are asked again; history cell = kind x has_nulls (thorough: x page version): on one handle, simple and hive, a filtered question that keeps one row group, "
         "statistics -> write_row_groups -> statistics -> slice -> (hive) remove_row_groups -> statistics -> "
         "write_row_groups -> statistics, each time memoised property = statistics(pf) = re-opened handle = oracle; "
         "oracle = pure-Python min/max of the non-null values of each chunk under the type's ordering; absence of "
@@ -533,6 +533,18 @@ def check_file(c, what, path, cols, bounds, st, parsed, filters=None, kept=None)
             # a column with a chunk lacking bounds is summarised as unusable before the selection: no completeness
             compare_spc(c, what + " filters=%r kept=%r" % (filters, idx), col, kind, fspc, [exps[i] for i in idx],
                         [all(present)] * len(idx), label="sorted_filtered")
+        # the filtered question must not have changed what the handle answers afterwards
+        try:
+            after, spc2 = pf.statistics, api.sorted_partitioned_columns(pf)
+        except Exception as ex:
+            c.bad("statistics_raised", "%s: after sorted_partitioned_columns(filters=%r): %s: %s" % (what, filters, type(ex).__name__, ex))
+            return pf
+        if pstats is not None and repr(after) != repr(api.statistics(pf)):
+            c.bad("view_stale", "%s: after sorted_partitioned_columns(filters=%r) kept=%r ParquetFile.statistics is %r, "
+                  "statistics(pf) %r" % (what, filters, idx, after["max"], api.statistics(pf)["max"]), after="filtered_query")
+        if repr(spc2) != repr(spc):
+            c.bad("sorted_stale", "%s: after sorted_partitioned_columns(filters=%r) kept=%r the unfiltered answer is %r, "
+                  "before it was %r" % (what, filters, idx, spc2, spc), after="filtered_query")
     return pf
 
 
@@ -726,9 +738,13 @@ def _check_handle(c, what, pf, kind, chunks, path):
     c.counts["history_steps"] += 1
 
 
+HISTORY_FILTER_KINDS = ("int64", "int32", "float64", "str_obj", "dt_ns", "dt_us", "Int64", "uint8", "bool", "cat_str")
+
+
 def run_history(p):
     import os
     import fastparquet
+    from fastparquet import api
     from mc import wr, oracles as O
     from mc.scratch import scratch
     kind, ver, hn = p["kind"], p["v"], p["has_nulls"]
@@ -761,6 +777,19 @@ def run_history(p):
                 pf = fastparquet.ParquetFile(path)
                 chunks = [cells[0:3], cells[3:6]]
                 _check_handle(c, what + " step=open", pf, kind, chunks, path)
+                # a filtered question that keeps one row group, then the same unfiltered questions again
+                first = [x for x in chunks[0] if x is not None and x == x]
+                if first and kind in HISTORY_FILTER_KINDS:
+                    c.ctx["step"] = "filtered_query"
+                    try:
+                        kept = list(api.filter_row_groups(pf, [("c", "==", first[0])], as_idx=True))
+                        api.sorted_partitioned_columns(pf, filters=[("c", "==", first[0])])
+                    except Exception:
+                        kept = None     # what a filter accepts is C05's business
+                    if kept is not None:
+                        if len(kept) < len(chunks):
+                            c.counts["history_filtered_pruned"] = c.counts.get("history_filtered_pruned", 0) + 1
+                        _check_handle(c, what + " step=filtered_query", pf, kind, chunks, path)
                 # the handle has memoised its statistics: now it grows
                 c.ctx["step"] = "append"
                 with wr.PageCfg(ver, None):
